@@ -285,7 +285,7 @@ class UserCode:
 
     def _is_benign_site(self, body, what):
         for k, w in self.benign_sites:
-            if body.key == k and what.startswith(w):
+            if (body.key == k or body.key == self.prog.folded.get(k)) and what.startswith(w):
                 return True
         return False
 
@@ -856,7 +856,25 @@ class Slice:
                 if kind == "assign":
                     rv = payload["rv"]
                     k = rv["k"]
-                    if k in ("use", "cast", "repeat"):
+                    rest = fs[len(dfs):] if len(fs) > len(dfs) else ()
+                    if k in ("use", "cast") and rest and op_place(rv["op"]) is not None:
+                        # `x = move y` read as `x.f`: follow `y.f`, not all of y
+                        pl = op_place(rv["op"])
+                        for f in place_fields(pl):
+                            res["fields"].add(f)
+                        todo.append((pl["l"], tuple(place_fields(pl)) + tuple(rest)))
+                    elif k == "aggr" and rest and rv.get("tuple") and rest[0].startswith(".") and rest[0][1:].isdigit() \
+                            and int(rest[0][1:]) < len(rv["ops"]):
+                        # `x = (a, b)` read as `x.1`: follow b only
+                        o = rv["ops"][int(rest[0][1:])]
+                        if o.get("k") == "const":
+                            res["consts"].append(o)
+                        elif op_place(o) is not None:
+                            pl = op_place(o)
+                            for f in place_fields(pl):
+                                res["fields"].add(f)
+                            todo.append((pl["l"], tuple(place_fields(pl)) + tuple(rest[1:])))
+                    elif k in ("use", "cast", "repeat"):
                         push_op(rv["op"])
                     elif k in ("ref", "rawptr", "discr"):
                         push_place(rv["place"])
@@ -921,6 +939,16 @@ def switch_guards(body, target_bb, unwind=False, dom=None, _depth=3):
             if target_bb in r:
                 allowed |= ls
         l = op_local(t["discr"])
+        # a named boolean (`let changed = a != b; if changed {..}`) is the same test as the inline one: look through plain copies
+        hops = 0
+        while l is not None and hops < 4:
+            d0 = body.unique_def(l)
+            if d0 and d0[2] == "assign" and d0[3]["rv"]["k"] == "use" and op_local(d0[3]["rv"]["op"]) is not None and \
+                    body.unique_def(op_local(d0[3]["rv"]["op"])) is not None:
+                l = op_local(d0[3]["rv"]["op"])
+                hops += 1
+            else:
+                break
         src = discr_source(body, l) if l is not None else {"kind": "place", "place": op_place(t["discr"])}
         listed = [a[0] for a in t["arms"]]
         out.append({"bb": S, "src": src, "allowed": allowed, "listed": listed, "discr_local": l})
@@ -931,8 +959,38 @@ def switch_guards(body, target_bb, unwind=False, dom=None, _depth=3):
             if d and d[2] == "assign" and d[3]["rv"]["k"] == "use" and op_local(d[3]["rv"]["op"]) is not None:
                 root = op_local(d[3]["rv"]["op"])
             defs = body.defs().get(root, [])
-            if len(defs) >= 2 and all(k == "assign" and p["rv"]["k"] == "use" and p["rv"]["op"].get("k") == "const"
-                                      and "val" in p["rv"]["op"] for _b, _i, k, p in defs):
+            consts_only = len(defs) >= 2 and all(k == "assign" and p["rv"]["k"] == "use" and p["rv"]["op"].get("k") == "const"
+                                                 and "val" in p["rv"]["op"] for _b, _i, k, p in defs)
+            if len(defs) >= 2 and not consts_only and all(k == "assign" for _b, _i, k, _p in defs):
+                # `a && b && !c` style temporaries: some arms assign a constant, one arm assigns the last operand (or its negation)
+                compat = []
+                for dbb, _i, _k, p in defs:
+                    rv = p["rv"]
+                    if rv["k"] == "use" and rv["op"].get("k") == "const" and "val" in rv["op"]:
+                        v = rv["op"]["val"]
+                        lab = v if v in listed else "otherwise"
+                        if lab in allowed:
+                            compat.append((dbb, None, None))
+                    elif rv["k"] == "unop" and rv["op"] == "Not" and op_local(rv["a"]) is not None:
+                        compat.append((dbb, op_local(rv["a"]), True))
+                    elif rv["k"] == "use" and op_local(rv["op"]) is not None:
+                        compat.append((dbb, op_local(rv["op"]), False))
+                    else:
+                        compat.append((dbb, None, None))
+                if len(compat) == 1:
+                    dbb, yl, neg = compat[0]
+                    for g in switch_guards(body, dbb, unwind, dom, _depth - 1):
+                        g = dict(g)
+                        g["via"] = S
+                        out.append(g)
+                    if yl is not None:
+                        truthy = 0 not in allowed
+                        falsy = allowed == {0}
+                        if truthy or falsy:
+                            want_true = truthy != neg
+                            out.append({"bb": dbb, "src": discr_source(body, yl), "allowed": ({"otherwise"} if want_true else {0}),
+                                        "listed": [0], "discr_local": yl, "via": S})
+            if consts_only:
                 compat = []
                 for dbb, _i, _k, p in defs:
                     v = p["rv"]["op"]["val"]
@@ -1099,7 +1157,7 @@ def iter_chain(body, op, depth=12):
     return out
 
 
-def loop_visits_all(body, bb):
+def loop_visits_all(body, bb, cutters=None):
     """Does the loop containing the call at `bb` visit every element of its source? Conditions: every exit edge of the loop
     is the None arm of a switch on the discriminant of an `Iterator::next()` result of that loop, and the iterator's source
     chain contains no truncating/selecting adaptor. Returns (ok, detail)."""
@@ -1122,7 +1180,7 @@ def loop_visits_all(body, bb):
     adaptors = set()
     for _b, t in nexts:
         for m in iter_chain(body, t["args"][0]):
-            if m in ITER_TRUNCATING:
+            if m in (ITER_TRUNCATING if cutters is None else cutters):
                 adaptors.add(m)
     if adaptors:
         bad.append(f"source chain uses selecting/truncating adaptors {sorted(adaptors)}")
@@ -1268,3 +1326,102 @@ class LockSections:
                         out.append((bb1, t1, bb2, t2, g["bb"]))
                         break
         return out, ss
+
+
+# ------------------------------------------------------------------ "applied to every element" in loop or adaptor form
+POSITIONAL_CUT = {"map_while", "take_while", "take", "skip", "skip_while", "step_by", "nth", "nth_back", "find", "find_map", "position",
+                  "rposition", "any", "all", "last", "next_back", "scan", "try_for_each", "try_fold"}
+TOTAL_CONSUMERS = {"for_each", "fold", "collect", "sum", "product", "count", "extend", "max", "min", "max_by_key", "min_by_key",
+                   "collect_vec", "unzip", "for_each_concurrent", "rev"}
+LAZY_ADAPTORS = {"map", "inspect", "filter_map", "filter", "flat_map", "enumerate", "zip", "cloned", "copied", "chain", "flatten", "rev",
+                 "sorted", "sorted_unstable", "sorted_by_key", "unique", "dedup", "peekable", "by_ref", "into_iter", "iter", "iter_mut"}
+
+
+def _closure_receiver_call(prog, parent, closure_body):
+    """(bb, term) of the call in `parent` that receives `closure_body` as an argument, or None."""
+    for bb, t in parent.calls():
+        for a in t["args"]:
+            l = op_local(a)
+            if l is None:
+                continue
+            for ck in parent.local_ty(l).get("closures", []):
+                if strip_generics(ck) == closure_body.key:
+                    return bb, t
+        for ta in t["callee"].get("targs", []):
+            for ck in ta.get("closures", []) if isinstance(ta, dict) else []:
+                if strip_generics(ck) == closure_body.key:
+                    return bb, t
+    return None
+
+
+def _consumed_totally(parent, t, depth=6):
+    """Does the iterator produced by adaptor call `t` end in a total consumer (possibly through more lazy adaptors) or a
+    `for` loop that runs to exhaustion?"""
+    cur = t
+    while depth:
+        depth -= 1
+        m = cur["callee"].get("method")
+        if m in TOTAL_CONSUMERS and m != "rev":
+            return True, m
+        if m in POSITIONAL_CUT:
+            return False, m
+        dl = cur["dest"]["l"]
+        nxt = None
+        for bb2, t2 in parent.calls():
+            if t2 is cur or not t2["args"]:
+                continue
+            r = Slice(parent, through_calls=False).run(t2["args"][0])
+            if dl in r["locals"] and t2["callee"].get("method") not in ("drop",):
+                if t2["callee"].get("method") == "next":
+                    ok, det = loop_visits_all(parent, bb2, cutters=POSITIONAL_CUT)
+                    return ok, "for-loop: " + det
+                nxt = t2
+                break
+        if nxt is None:
+            return False, f"{m} result not consumed"
+        cur = nxt
+    return False, "chain too long"
+
+
+def element_ops(prog, body, is_op):
+    """Where `is_op(term)` is applied inside `body` (its loops, or closures handed to iterator adaptors) and whether that
+    application reaches EVERY element of the iterated collection. Returns a list of dicts
+    {form, ok, detail, where (body, bb), src (operand of the iterator source in the enclosing body, or None)}."""
+    out = []
+    for bb, t in body.calls():
+        if body.blocks[bb].cleanup or not is_op(t) or not body.in_loop(bb):
+            continue
+        ok, det = loop_visits_all(body, bb, cutters=POSITIONAL_CUT)
+        lp = loop_blocks(body, bb)
+        nx = [tt for b2, tt in body.calls() if b2 in lp and tt["callee"].get("method") == "next"]
+        out.append({"form": "loop", "ok": ok, "detail": det, "where": (body, bb), "src": nx[0]["args"][0] if nx else None, "in": body})
+    for c in prog.closures_of(body):
+        hits = [(bb, t) for bb, t in c.calls() if not c.blocks[bb].cleanup and is_op(t)]
+        if not hits:
+            continue
+        # the closure may be nested: climb until a closure that `body` (or an intermediate closure) hands to an adaptor
+        parent = None
+        for cand in [body] + prog.closures_of(body):
+            if cand is c:
+                continue
+            rc = _closure_receiver_call(prog, cand, c)
+            if rc is not None:
+                parent = (cand, rc)
+                break
+        if parent is None:
+            for bb, t in hits:
+                out.append({"form": "closure", "ok": False, "detail": "closure not handed to a recognised adaptor", "where": (c, bb), "src": None, "in": c})
+            continue
+        pb, (pbb, pt) = parent
+        m = pt["callee"].get("method")
+        chain = iter_chain(pb, pt["args"][0]) if pt["args"] else []
+        cut = sorted(set(chain) & POSITIONAL_CUT)
+        if m in LAZY_ADAPTORS or m in TOTAL_CONSUMERS:
+            tot, how = _consumed_totally(pb, pt)
+        else:
+            tot, how = False, f"`{m}` is not an element-wise adaptor"
+        ok = tot and not cut and not any(c.in_loop(bb) and False for bb, _t in hits)
+        for bb, t in hits:
+            out.append({"form": f"closure->{m}", "ok": ok, "detail": f"closure handed to `{m}` ({how}); source chain {chain[::-1]}; positional cuts {cut or 'none'}",
+                        "where": (c, bb), "src": pt["args"][0] if pt["args"] else None, "in": pb})
+    return out
